@@ -69,7 +69,7 @@ pub fn one_item_per_line(text: &str) -> String {
 pub fn drive(args: &[String]) -> i32 {
     let sets = util::read_ndjson(util::arg(args, "--sets").expect("--sets"));
     let cfgs: Vec<Value> = util::read_ndjson(util::arg(args, "--cfgs").expect("--cfgs")).into_iter()
-        .filter(|c| c["cfg"]["ann"] != "extra_derives" && c["cfg"]["ann"] != "with_copy").collect();
+        .filter(|c| c["cfg"]["ann"] != "extra_derives" && c["cfg"]["ann"] != "with_copy" && c["cfg"]["ann"] != "path_derive").collect();
     let patterns = util::read_ndjson(util::arg(args, "--patterns").expect("--patterns"));
     let per_set: usize = util::arg(args, "--per-set").and_then(|s| s.parse().ok()).unwrap_or(1);
     let dir = util::arg(args, "--crate").expect("--crate").to_string();
